@@ -18,14 +18,25 @@ model: lean PysphVerif.Model.Interp at Float.  The driver gets, per destination
        disagreement.  Only the visiting ORDER is the implementation's (L2 detail).
        The binding state machine (which objects interpolate fills / evaluates /
        binned) is compared after every operation of a history.
+       The staging loop of `interpolate` (requested property -> `temp_prop` of
+       every source array, zeros for an array that lacks the property) is tied
+       too: per interpolate call and source array the model gets the array's
+       property table and the contents `temp_prop` had BEFORE the call (left
+       there by an earlier interpolate of another property, or brought along by
+       an array handed to the constructor / update_particle_arrays) and its
+       answer is compared bit for bit with `temp_prop` after the call.
 oracle: the property statement evaluated with brute-force sums over ALL source
        particles (and their periodic images, computed here, not by the domain
-       manager), independent of model, neighbour structure and ghost machinery;
+       manager), independent of model, neighbour structure, ghost machinery and
+       of `temp_prop`: the source values are those of the REQUESTED property read
+       from the source arrays before the call (0.0 for every particle of an array
+       that does not have the property, as the code documents);
        tolerance 1e-9 relative to sum |terms| (the statement's "value defined by
        its method" up to rounding): Shepard = weighted mean, inside [min,max] of
        contributing values, constant reproduced, 0.0 where nothing is in range;
        sph/splash/splash_norm = documented sums; order1 reproduces a linear
-       field and its gradient where the moment matrix is well conditioned.
+       field and its gradient where the moment matrix is well conditioned, and
+       for any property returns the solution of the documented moment system.
 """
 import json
 import math
@@ -101,7 +112,7 @@ def r6(v):
     return float(v)
 
 
-def gen_array(rng, cfg, name, n, h0, region, lin, const, with_q, tagged):
+def gen_array(rng, cfg, name, n, h0, region, lin, const, has, tagged, prefill=0.0):
     dim = cfg['dim']
     lo, hi = region
     pos = [[0.0] * n for _ in range(3)]
@@ -122,18 +133,42 @@ def gen_array(rng, cfg, name, n, h0, region, lin, const, with_q, tagged):
         'lin': [lin[0] + lin[1] * pos[0][i] + lin[2] * pos[1][i] +
                 lin[3] * pos[2][i] for i in range(n)],
     }
-    if with_q:
+    if has['q']:
         props['q'] = [rng.uniform(0.0, 1.0) for _ in range(n)]
+    if has['r']:
+        props['r'] = [rng.uniform(-40.0, -30.0) for _ in range(n)]
     tag = [0] * n
     if tagged:
         for i in range(n):
             if rng.random() < 0.25:
                 tag[i] = 1
-    return {'name': name, 'x': pos[0], 'y': pos[1], 'z': pos[2], 'h': h,
-            'm': m, 'rho': rho, 'props': props, 'tag': tag}
+    sp = {'name': name, 'x': pos[0], 'y': pos[1], 'z': pos[2], 'h': h,
+          'm': m, 'rho': rho, 'props': props, 'tag': tag}
+    if rng.random() < prefill:
+        # the array arrives with a used `temp_prop` (an earlier Interpolator
+        # worked on it): far from every property's range, never zero
+        sp['temp0'] = [rng.uniform(50.0, 90.0) for _ in range(n)]
+    return sp
 
 
-def gen_arrays(rng, cfg, lin, const):
+def gen_psets(rng, narr):
+    """which arrays own the optional properties 'q' and 'r'.  With two or more
+    arrays each of them is in at least one array and missing from at least one
+    (the UNION of the property names over the arrays is what the generated
+    source depends on: it stays the same, so no extra compilation)."""
+    if narr == 1:
+        return {'q': [True], 'r': [True]}
+    out = {}
+    for nm in ('q', 'r'):
+        while True:
+            v = [rng.random() < 0.5 for _ in range(narr)]
+            if any(v) and not all(v):
+                break
+        out[nm] = v
+    return out
+
+
+def gen_arrays(rng, cfg, lin, const, psets, prefill=0.0, small=False):
     dim, narr = cfg['dim'], cfg['narr']
     ntot = {1: rng.randint(8, 30), 2: rng.randint(30, 80),
             3: rng.randint(50, 110)}[dim]
@@ -154,19 +189,22 @@ def gen_arrays(rng, cfg, lin, const):
         h0 = rng.uniform(0.9, 1.6) * ntot ** (-1.0 / dim)
         if dim == 3:
             h0 = min(h0, 0.28)
+        if small:
+            # minimised corpus cases: a handful of particles, all in range
+            ntot = 5 * narr
+            h0 = 0.45
     layout = rng.choice(['mixed', 'mixed', 'halves'])
     cuts = sorted(rng.uniform(0.25, 0.75) for _ in range(narr - 1))
     edges = [0.0] + cuts + [1.0]
     sizes = [max(3, ntot // narr + rng.randint(-2, 2)) for _ in range(narr)]
-    # which arrays carry 'q' is fixed per configuration: the set of properties
-    # of an array is part of the generated source (one compilation per config)
-    q_in = [a % 2 == 0 for a in range(narr)]
+    # which arrays carry 'q' / 'r' is fixed per history (`psets`): rebinding
+    # demands arrays with the same properties as before
     tagged = (not cfg['periodic']) and rng.random() < 0.2
     out = []
     for a in range(narr):
         region = (edges[a], edges[a + 1]) if layout == 'halves' else (0.0, 1.0)
         sp = gen_array(rng, cfg, NAMES[a], sizes[a], h0, region, lin, const,
-                       q_in[a], tagged)
+                       {'q': psets['q'][a], 'r': psets['r'][a]}, tagged, prefill)
         out.append(sp)
     # make the bounding box span the unit box in every used dimension (the
     # Interpolator infers `dim` from it); keep these two particles real
@@ -205,40 +243,62 @@ def gen_points(rng, cfg, arrays, allow_grid=True):
             'shape': shape}
 
 
-def gen_interp_op(rng, cfg):
+def gen_interp_op(rng, cfg, partial=False):
     method = cfg['method']
-    if method == 'order1':
-        prop = rng.choice(['lin', 'lin', 'p', 'c'])
+    if partial:
+        prop = rng.choice(['q', 'r', 'absent'])
+    elif method == 'order1':
+        prop = rng.choice(['lin', 'lin', 'lin', 'p', 'c', 'q', 'r', 'absent'])
         comp = rng.choice(list(range(cfg['dim'] + 1)) + [0])
         if cfg['dim'] < 3 and rng.random() < 0.1:
             comp = cfg['dim'] + 1       # a component that is not solved for
     else:
-        prop = rng.choice(['p', 'p', 'c', 'q', 'q', 'lin', 'absent'])
+        prop = rng.choice(['p', 'p', 'c', 'q', 'q', 'r', 'lin', 'absent'])
+    if method != 'order1':
         comp = 0
+    elif partial:
+        comp = rng.choice(list(range(cfg['dim'] + 1)) + [0])
     return {'op': 'interp', 'prop': prop, 'comp': comp}
 
 
-def gen_case(rng, cfg, nops=None):
+def gen_interp_seq(rng, cfg):
+    """one to three interpolate calls in a row on the same bindings: different
+    properties one after the other, in particular one that some (or all) arrays
+    lack right after one that every array has"""
+    ops = [gen_interp_op(rng, cfg)]
+    if rng.random() < 0.5:
+        ops.append(gen_interp_op(rng, cfg, partial=True))
+    if rng.random() < 0.3:
+        ops.append(gen_interp_op(rng, cfg))
+    return ops
+
+
+def gen_case(rng, cfg, nops=None, psets=None, small=False, prefill=None):
     lin = [rng.uniform(-1, 1), rng.uniform(-2, 2),
            rng.uniform(-2, 2) if cfg['dim'] > 1 else 0.0,
            rng.uniform(-2, 2) if cfg['dim'] > 2 else 0.0]
     const = rng.choice([1.0, -2.5, rng.uniform(-3, 3)])
-    arrays = gen_arrays(rng, cfg, lin, const)
-    case = {'cfg': cfg, 'lin': lin, 'const': const, 'arrays': arrays,
+    if psets is None:
+        psets = gen_psets(rng, cfg['narr'])
+    if prefill is None:
+        # arrays that arrive with a used temp_prop: in about half the histories
+        prefill = rng.choice([0.0, 0.0, 0.5, 1.0])
+    arrays = gen_arrays(rng, cfg, lin, const, psets, prefill, small)
+    case = {'cfg': cfg, 'lin': lin, 'const': const, 'psets': psets, 'arrays': arrays,
             'points': gen_points(rng, cfg, arrays), 'ops': []}
     cur = arrays
     ops = case['ops']
-    ops.append(gen_interp_op(rng, cfg))
+    ops.extend(gen_interp_seq(rng, cfg))
     for _ in range(nops if nops is not None else rng.randint(2, 5)):
         kind = rng.choice(['interp', 'mutate', 'mutate', 'newarrays',
                            'newpoints', 'movepoints', 'setdomain'])
         if kind == 'interp':
-            ops.append(gen_interp_op(rng, cfg))
+            ops.extend(gen_interp_seq(rng, cfg))
             continue
         if kind == 'mutate':
             k = rng.randrange(len(cur))
             old = cur[k]
-            new = gen_arrays(rng, cfg, lin, const)[k]
+            new = gen_arrays(rng, cfg, lin, const, psets)[k]
             # same number of particles and tags: an in-place change
             n = len(old['x'])
             new = resize_spec(rng, new, n, old['tag'], lin)
@@ -255,7 +315,7 @@ def gen_case(rng, cfg, nops=None):
             cur = list(cur)
             cur[k] = new
         elif kind == 'newarrays':
-            cur = gen_arrays(rng, cfg, lin, const)
+            cur = gen_arrays(rng, cfg, lin, const, psets, prefill, small)
             ops.append({'op': 'newarrays', 'arrays': cur})
         elif kind == 'newpoints':
             ops.append({'op': 'newpoints',
@@ -278,9 +338,7 @@ def gen_case(rng, cfg, nops=None):
                     b += [0.0, 0.0]
                     shape.append(1)
             ops.append({'op': 'setdomain', 'bounds': b, 'shape': shape})
-        ops.append(gen_interp_op(rng, cfg))
-        if rng.random() < 0.3:
-            ops.append(gen_interp_op(rng, cfg))
+        ops.extend(gen_interp_seq(rng, cfg))
     return case
 
 
@@ -321,6 +379,10 @@ def make_pa(sp):
     for nm, v in sp['props'].items():
         pa.add_property(nm)
         pa.get_carray(nm).get_npy_array()[:] = v
+    if sp.get('temp0') is not None:
+        # an array that was used by another Interpolator before
+        pa.add_property('temp_prop')
+        pa.get_carray('temp_prop').get_npy_array()[:] = sp['temp0']
     pa.get_carray('tag').get_npy_array()[:] = sp['tag']
     pa.align_particles()
     return pa
@@ -377,6 +439,8 @@ class Session:
                 kw['periodic_in_' + key] = True
             self.domain = DomainManager(**kw)
         self.srcs = [make_pa(sp) for sp in case['arrays']]
+        self.specs = list(case['arrays'])   # the history's view of each array
+        self.pre = None
         for pa in self.srcs:
             self.label(pa)
         self.computes_on_points = 0
@@ -527,6 +591,7 @@ class Session:
                 self.do_update(True)
         elif kind == 'newarrays':
             self.srcs = [make_pa(sp) for sp in op['arrays']]
+            self.specs = list(op['arrays'])
             for pa in self.srcs:
                 self.label(pa)
             if cfg['api'] == 'interp':
@@ -580,9 +645,29 @@ class Session:
         self.bobs.append(self.bind_obs())
         self.bstale.append(False)
 
+    def pre_stage(self, prop):
+        """what the source arrays hold BEFORE interpolate(prop): per array the
+        source values the property's formulas range over (`want`: the requested
+        property, 0.0 for every particle of an array whose SPEC has no such
+        property — decided from the history, not from the implementation's
+        book-keeping), a property table for the model's staging loop and the
+        present contents of temp_prop"""
+        out = []
+        for a, sp in zip(self.srcs, self.specs):
+            n = int(a.get_number_of_particles())
+            names = sorted(sp['props']) + ['h', 'm', 'rho']
+            vals = {nm: a.get(nm, only_real_particles=False).copy() for nm in names}
+            has = prop in sp['props']
+            want = vals[prop].copy() if has else np.zeros(n)
+            old = a.get('temp_prop', only_real_particles=False).copy()
+            out.append({'n': n, 'names': names, 'vals': vals, 'has': has,
+                        'want': want, 'old': old})
+        return out
+
     def interpolate(self, prop, comp):
         """returns the flat result for the real destination particles"""
         self.computes_on_points += 1
+        self.pre = self.pre_stage(prop)
         if self.cfg['api'] == 'interp':
             r = impl_call('interpolate', self.ip.interpolate, prop, comp)
             self.last_shape = list(np.shape(r))
@@ -613,6 +698,9 @@ def snapshot(ses):
              for k in ('x', 'y', 'z', 'h', 'm', 'rho', 'temp_prop')}
         d['tag'] = a.get('tag', only_real_particles=False).tolist()
         d['nreal'] = int(a.num_real_particles)
+        # the source values of the requested property (NOT what the
+        # implementation staged in temp_prop)
+        d['f'] = ses.pre[len(srcs)]['want'].tolist()
         srcs.append(d)
     t = ses.target
     tgt = {k: t.get(k, only_real_particles=False).tolist() for k in ('x', 'y', 'z', 'h')}
@@ -707,7 +795,7 @@ def brute(k, cfg, method, dpos, hd, srcs):
                 spos = (s['x'][j] + a, s['y'][j] + b, s['z'][j] + c)
                 w, _ = kern(k, dpos, spos, pair_h(method, hd, s['h'][j]), False)
                 if w != 0.0:
-                    out.append((w, s['m'][j] / s['rho'][j], s['temp_prop'][j]))
+                    out.append((w, s['m'][j] / s['rho'][j], s['f'][j]))
     return out
 
 
@@ -737,6 +825,27 @@ def observe(ses, op, res, where):
                              '%d values, one per interpolation point' % nt,
                              '%d values' % len(res)))
         return out
+    # ---- the staging loop: temp_prop after the call against the model run on
+    # the array's property table and the OLD contents of temp_prop
+    for a, (s1, pre) in enumerate(zip(srcs, ses.pre)):
+        stale = bool(np.any(pre['old'] != 0.0))
+        if pre['has']:
+            c('stage:array-has-prop')
+        else:
+            c('stage:array-lacks-prop')
+            if stale:
+                # the situation in which zeros must REPLACE earlier contents
+                c('stage:array-lacks-prop-and-temp_prop-was-nonzero')
+        if stale and not np.array_equal(pre['old'], pre['want']):
+            c('stage:overwrites-different-nonzero-temp_prop')
+        if cfg['api'] != 'interp':
+            continue        # SPHEvaluator has no interpolate: the harness staged
+        out['lines'].append('S prop=%s n=%d names=%s vals=%s old=%s' % (
+            op['prop'], pre['n'], ','.join(pre['names']),
+            H.flist([v for nm in pre['names'] for v in pre['vals'][nm].tolist()]),
+            H.flist(pre['old'].tolist())))
+        out['expect'].append(('stage', where + ' temp_prop of source array %d' % a,
+                              'temp ' + H.flist(s1['temp_prop']), None))
     listed = nbr_lists(ses, narr, nt, narr)
     want_grad = method == 'order1'
     rhos = None
@@ -869,12 +978,14 @@ def oracle_order1(ses, op, i, dpos, hd, srcs, tgt, got, out, c):
     (brute force, from the densities the evaluator used) is well conditioned"""
     cfg = ses.cfg
     case = ses.case
-    if op['prop'] not in ('lin', 'c') or cfg['periodic']:
+    if cfg['periodic']:
         return
     dim = cfg['dim']
     n = dim + 1
     k = ses.kernel
     M = np.zeros((4, 4))
+    b = np.zeros(4)
+    fmax = 0.0
     for s in srcs:
         for j in range(len(s['x'])):
             spos = (s['x'][j], s['y'][j], s['z'][j])
@@ -890,6 +1001,12 @@ def oracle_order1(ses, op, i, dpos, hd, srcs, tgt, got, out, c):
                 M[r + 1, 0] += g[r] * V
                 for t in range(3):
                     M[r + 1, t + 1] += -xij[t] * g[r] * V
+            # right-hand side from the REQUESTED property's values
+            fj = s['f'][j]
+            fmax = max(fmax, abs(fj))
+            b[0] += fj * w * V
+            for r in range(3):
+                b[r + 1] += fj * g[r] * V
     Mn = M[:n, :n]
     if not np.all(np.isfinite(Mn)) or abs(Mn[0, 0]) < 1e-3:
         c('oracle:order1-skipped-illconditioned')
@@ -906,18 +1023,40 @@ def oracle_order1(ses, op, i, dpos, hd, srcs, tgt, got, out, c):
     if not (cond < 1e4) or min(minors) < 1e-4:
         c('oracle:order1-skipped-illconditioned')
         return
-    lin = case['lin'] if op['prop'] == 'lin' else [case['const'], 0.0, 0.0, 0.0]
-    want_all = [lin[0] + lin[1] * dpos[0] + lin[2] * dpos[1] + lin[3] * dpos[2],
-                lin[1], lin[2], lin[3]]
     comp = op['comp']
-    scale = abs(lin[0]) + abs(lin[1]) + abs(lin[2]) + abs(lin[3]) + 1.0
-    c('oracle:order1-linear-reproduction')
     if comp > dim:
         # components beyond the dimension are not solved for: they stay 0
+        c('oracle:order1-unused-component')
         if got != 0.0:
             out['fails'].append(('C14:order1:unused-component',
                                  '0.0 for comp %d in %d-D at point %d' % (comp, dim, i), repr(got)))
         return
+    # any property: the value is the solution of the documented moment system
+    # M (f, grad f) = sum_j f_j (W, grad W) V_j with f_j the requested property
+    # (0.0 for the particles of an array that lacks it)
+    try:
+        sol = np.linalg.solve(Mn, b[:n])
+    except Exception:           # noqa
+        sol = None
+    if sol is not None and np.all(np.isfinite(sol)):
+        c('oracle:order1-moment-system')
+        tol = 1e-7 * (fmax + 1.0) * (1.0 if comp == 0 else 1.0 / hd)
+        if not (abs(got - sol[comp]) <= tol):
+            what = 'moment-system'
+            if dim == 3 and ses.computes_on_points > 1:
+                what = '3d-repeat-call'
+            out['fails'].append(('C14:order1:%s' % what,
+                                 'comp %d of the solution of the moment system for %r = %r '
+                                 'at point %d (cond %.3g)' % (comp, op['prop'], float(sol[comp]), i, cond),
+                                 repr(got)))
+            return
+    if op['prop'] not in ('lin', 'c'):
+        return
+    lin = case['lin'] if op['prop'] == 'lin' else [case['const'], 0.0, 0.0, 0.0]
+    want_all = [lin[0] + lin[1] * dpos[0] + lin[2] * dpos[1] + lin[3] * dpos[2],
+                lin[1], lin[2], lin[3]]
+    scale = abs(lin[0]) + abs(lin[1]) + abs(lin[2]) + abs(lin[3]) + 1.0
+    c('oracle:order1-linear-reproduction')
     want = want_all[comp]
     tol = 1e-7 * scale * (1.0 if comp == 0 else 1.0 / hd)
     if not (abs(got - want) <= tol):
@@ -1165,6 +1304,39 @@ def corpus(cfg):
                        {'op': 'interp', 'prop': 'lin', 'comp': 0},
                        {'op': 'interp', 'prop': 'lin', 'comp': 1}]
         out.append(case)
+    if cfg['api'] == 'interp' and cfg['narr'] >= 2:
+        # staging loop of interpolate: an array that LACKS the requested
+        # property must be staged as zeros even when its temp_prop is in use
+        # (seeded defect C14-A: `continue` instead of `data = 0.0`, so the
+        # values of the previously interpolated property were used).  Needs two
+        # arrays with different property sets and a history.
+        narr = cfg['narr']
+        psets = {'q': [a == 0 for a in range(narr)],
+                 'r': [a != 0 for a in range(narr)]}
+        small = not cfg['periodic']     # periodic: support << box, keep it populated
+        mid = {'kind': 'explicit', 'x': [0.3, 0.5, 0.7],
+               'y': [0.4, 0.6, 0.5] if cfg['dim'] > 1 else [0.0] * 3,
+               'z': [0.5, 0.45, 0.6] if cfg['dim'] > 2 else [0.0] * 3, 'shape': None}
+        # (a) a property every array has, then one only the first array has
+        case = gen_case(random.Random(1401), cfg, nops=0, psets=psets, small=small,
+                        prefill=0.0)
+        case['points'] = mid
+        case['ops'] = [{'op': 'interp', 'prop': 'p', 'comp': 0},
+                       {'op': 'interp', 'prop': 'q', 'comp': 0},
+                       {'op': 'interp', 'prop': 'r', 'comp': 0}]
+        out.append(case)
+        # (b) arrays that arrive with a used temp_prop, at construction and
+        # through update_particle_arrays; the first call already asks for a
+        # property that some arrays lack
+        rng = random.Random(1402)
+        case = gen_case(rng, cfg, nops=0, psets=psets, small=small, prefill=1.0)
+        case['points'] = mid
+        again = gen_arrays(rng, cfg, case['lin'], case['const'], psets, 1.0, small)
+        case['ops'] = [{'op': 'interp', 'prop': 'q', 'comp': 0},
+                       {'op': 'newarrays', 'arrays': again},
+                       {'op': 'interp', 'prop': 'r', 'comp': 0},
+                       {'op': 'interp', 'prop': 'absent', 'comp': 0}]
+        out.append(case)
     return out
 
 
@@ -1201,11 +1373,13 @@ def merge(R, results):
 def main():
     a = H.args()
     R = H.Result(
-        'case = one history on one Interpolator/SPHEvaluator (construction, then 1-12 '
-        'operations among interpolate / in-place change + update / update_particle_arrays / '
-        'set_interpolation_points / set_domain / moved points); evaluations = destination '
-        'points (and, for order1, summation-density values) compared bit for bit with the '
-        'model, plus one per history; distinct = distinct history JSON; non-trivial = some '
+        'case = one history on one Interpolator/SPHEvaluator (construction from 1-3 source '
+        'arrays whose property sets may differ and which may arrive with a used temp_prop, '
+        'then 1-16 operations among interpolate of various properties in sequence / in-place '
+        'change + update / update_particle_arrays / set_interpolation_points / set_domain / '
+        'moved points); evaluations = destination points (and, for order1, summation-density '
+        'values; per interpolate call and source array the staged temp_prop) compared bit for '
+        'bit with the model, plus one per history; distinct = distinct history JSON; non-trivial = some '
         'destination point with at least two listed neighbours')
     if a.replay:
         rp = json.load(open(a.replay))
